@@ -3,7 +3,7 @@ import time
 import z3
 from mir2smt import terms as T
 from mir2smt.exec import (Executor, State, Frame, IV, Agg, EnumV, RefV, Outcome, Unsupported, UNIT,
-                          Program, _Holder, FV, StrV, OvfT)
+                          Program, _Holder, FV, StrV, OvfT, Opaque, SliceV)
 from mir2smt.vc import (sym_int, decimal, sym_decimal, ref_to, start_state, check_vc, model_int,
                         rnd_rel, rnd_conc, MODES, MAXC, smtlib, check_vc_portfolio)
 from mir2smt import builtins as BI
